@@ -215,8 +215,43 @@ impl SelectorsParser {
         }
     }
 
+    /// Functional pseudo-classes nest (`:not(:not(…))`), and the parser, the validation above and the
+    /// compiler all recurse on that nesting, so it has to be bounded to keep the stack bounded.
+    const MAX_NESTING_DEPTH: usize = 32;
+
+    fn is_nested_too_deeply(selector: &str) -> bool {
+        let mut depth = 0_usize;
+        let mut quote = None;
+        let mut bytes = selector.bytes();
+
+        while let Some(b) = bytes.next() {
+            match (quote, b) {
+                (_, b'\\') => {
+                    bytes.next();
+                }
+                (Some(q), _) if b == q || b == b'\n' => quote = None,
+                (Some(_), _) => {}
+                (None, b'"' | b'\'') => quote = Some(b),
+                (None, b'(') => {
+                    depth += 1;
+                    if depth > Self::MAX_NESTING_DEPTH {
+                        return true;
+                    }
+                }
+                (None, b')') => depth = depth.saturating_sub(1),
+                (None, _) => {}
+            }
+        }
+
+        false
+    }
+
     #[inline]
     pub fn parse(selector: &str) -> Result<SelectorList<SelectorImplDescriptor>, SelectorError> {
+        if Self::is_nested_too_deeply(selector) {
+            return Err(SelectorError::UnsupportedSyntax);
+        }
+
         let mut input = ParserInput::new(selector);
         let mut css_parser = CssParser::new(&mut input);
 
